@@ -155,13 +155,13 @@ def modifyEntry : Tree → List Name → (Entry → Tree → Entry × Tree) → 
 
 /-! ## state and slot allocation -/
 
+/-- the format version does not occur: it only selects sector sizes, which are below this model -/
 structure State where
-  version : Nat
   rootMeta : Meta
   top : Tree
 deriving Repr
 
-def State.create (v : Nat) : State := ⟨v, Meta.blank, .leaf⟩
+def State.create : State := ⟨Meta.blank, .leaf⟩
 
 /-- `allocate_dir_entry`: the first unallocated slot, else a new one — the least slot number not
 in use (slot 0 is the root) -/
@@ -264,6 +264,10 @@ def newEntry (slot : Nat) (name : Name) (isStream : Bool) : Entry :=
   { slot := slot, name := name, isStream := isStream, black := true,
     md := if isStream then Meta.blank else ⟨nilClsid, 0, PIN_TS, PIN_TS⟩, content := [] }
 
+/-- the entry `insert_dir_entry` writes, with the bytes a following `write_all` puts into it -/
+def mkEntry (slot : Nat) (name : Name) (stream : Option (Bool × Bytes)) : Entry :=
+  { newEntry slot name stream.isSome with content := (stream.map (·.2)).getD [] }
+
 def isStreamRes : Res → Bool
   | .root => false
   | .ent e _ => e.isStream
@@ -290,11 +294,13 @@ def createAt (s : State) (names : List Name) (stream : Option (Bool × Bytes)) :
       | none => (s, .err .notFound)
       | some r =>
         if isStreamRes r then (s, .err .notFound) else
-        let e := newEntry (freshSlot s.top) name stream.isSome
-        let e := match stream with
-          | some (_, data) => { e with content := data }
-          | none => e
-        ({ s with top := modifyKids s.top parent (fun t => t.insert e) }, .ok)
+        ({ s with top := modifyKids s.top parent (fun t => t.insert (mkEntry (freshSlot s.top) name stream)) }, .ok)
+
+/-- `is_storage` on an already parsed chain -/
+def isStorageAt (t : Tree) (names : List Name) : Bool :=
+  match resolve t names with
+  | some r => !isStreamRes r
+  | none => false
 
 /-- `create_storage_all_with_path` -/
 def createAll (s : State) (names : List Name) : State × Out :=
@@ -302,10 +308,7 @@ def createAll (s : State) (names : List Name) : State × Out :=
   let rec go (s : State) : List (List Name) → State × Out
     | [] => (s, .ok)
     | pre :: rest =>
-      let isStorage := match resolve s.top pre with
-        | some r => !isStreamRes r
-        | none => false
-      if isStorage then go s rest else
+      if isStorageAt s.top pre then go s rest else
       match createAt s pre none with
       | (s', .ok) => go s' rest
       | (s', o) => (s', o)
